@@ -78,6 +78,10 @@ func runC17(ctx *core.Ctx) {
 									continue
 								}
 							}
+							if isMaxOfFraction(st.Val, T) {
+								frac = true
+								continue
+							}
 							base = false
 							break
 						}
@@ -94,8 +98,20 @@ func runC17(ctx *core.Ctx) {
 							continue
 						}
 					}
+					if isMaxOfFraction(l.Val, T) {
+						frac = true
+						continue
+					}
 					base = false
 					break
+				}
+				if c, isC := G.(*ssa.Call); isC && isMaxOfFraction(c, T) {
+					frac = true
+					for _, a := range c.Call.Args {
+						if k, ok := ssax.ConstInt(a); ok && time.Duration(k) == 100*time.Millisecond {
+							base = true
+						}
+					}
 				}
 				okG = base && frac
 			}
@@ -419,31 +435,50 @@ func runC17(ctx *core.Ctx) {
 	c01Verdicts(ctx, builtinCmds(p))
 	// ---- DL4
 	{
-		ok := false
-		for _, a := range runT.AnonFuncs {
-			for _, b := range a.AnonFuncs {
-				bg := graph(p, b)
-				bg.Instrs(func(i ssa.Instruction) {
-					c, isCall := i.(*ssa.Call)
-					if !isCall {
-						return
-					}
-					u, isU := c.Call.Value.(*ssa.UnOp)
-					if !isU {
-						return
-					}
-					fv, isFV := u.X.(*ssa.FreeVar)
-					if !isFV || fv.Name() != "cancel" {
-						return
-					}
-					ok = cmpFact(bg.FactsAtInstr(c), token.EQL, func(v ssa.Value) bool {
-						cc, ok := v.(*ssa.Call)
-						return ok && ssax.CalleeName(&cc.Call) == "sync/atomic.AddInt32"
-					}, isConstIntV(0))
-				})
+		// the cancel function, wherever it is called from inside RunT's nested functions: a call of a
+		// value of type func() that is a captured variable or a parameter (context.CancelFunc)
+		nCancel, nLast := 0, 0
+		var nested []*ssa.Function
+		var collectN func(f *ssa.Function)
+		collectN = func(f *ssa.Function) {
+			for _, c := range f.AnonFuncs {
+				nested = append(nested, c)
+				collectN(c)
 			}
 		}
-		ctx.Check(ok, "DL4", "testscript.RunT$closure#cancel", runT.Pos(), "cancel is called exactly by the last subtest to finish")
+		collectN(runT)
+		for _, b := range nested {
+			bg := graph(p, b)
+			bg.Instrs(func(i ssa.Instruction) {
+				c, isCall := i.(*ssa.Call)
+				if !isCall || c.Call.IsInvoke() || len(c.Call.Args) != 0 {
+					return
+				}
+				v := c.Call.Value
+				if u, isU := v.(*ssa.UnOp); isU && u.Op == token.MUL {
+					v = u.X
+				}
+				switch v.(type) {
+				case *ssa.FreeVar, *ssa.Parameter:
+				default:
+					return
+				}
+				sig, isSig := c.Call.Value.Type().Underlying().(*types.Signature)
+				if !isSig || sig.Params().Len() != 0 || sig.Results().Len() != 0 {
+					return
+				}
+				last := cmpFact(bg.FactsAtInstr(c), token.EQL, func(v ssa.Value) bool {
+					cc, ok := v.(*ssa.Call)
+					return ok && ssax.CalleeName(&cc.Call) == "sync/atomic.AddInt32"
+				}, isConstIntV(0))
+				nCancel++
+				if last {
+					nLast++
+				}
+			})
+		}
+		ok := nCancel > 0 && nCancel == nLast
+		ctx.Check(ok, "DL4", "testscript.RunT$closure#cancel", runT.Pos(), "cancel is called exactly by the last subtest to finish (%d of %d calls of a captured or passed func() are behind 'the decrement gave zero')", nLast, nCancel)
 		// the count starts at the number of scripts and only ever goes down by one per subtest
 		rg := graph(p, runT)
 		var cell *ssa.Alloc
@@ -572,4 +607,20 @@ func boundToCell(g *ssax.Graph, a *ssa.Function, v ssa.Value, cell *ssa.Alloc) b
 		}
 	})
 	return found
+}
+
+// isMaxOfFraction: v is max(x, T/20) (the builtin), in either argument order.
+func isMaxOfFraction(v, T ssa.Value) bool {
+	c, ok := v.(*ssa.Call)
+	if !ok || !isBuiltinCall(c, "max") || len(c.Call.Args) != 2 {
+		return false
+	}
+	for _, a := range c.Call.Args {
+		if q, ok := a.(*ssa.BinOp); ok && q.Op == token.QUO && q.X == T {
+			if k, ok := ssax.ConstInt(q.Y); ok && k == 20 {
+				return true
+			}
+		}
+	}
+	return false
 }
